@@ -39,6 +39,13 @@ pub fn line(t: &mut Tape, lines: &[&str]) -> String {
 pub fn two_names(t: &mut Tape, lang: &str) -> (String, String) {
     let stems = ["main", "util", "foo_bar", "x", "Config", "a-b", "módulo", "v2.test"];
     let dirs = ["", "src/", "lib/deep/dir/", "a b/", "ünï/"];
+    if lang == "Makefile" && t.coin() {
+        // an extension-less name and a name with the language's extension
+        let d1 = dirs[t.below(dirs.len())];
+        let d2 = dirs[t.below(dirs.len())];
+        let (a, b) = (format!("{}Makefile", d1), format!("{}{}.mk", d2, stems[t.below(4)]));
+        return if t.coin() { (a, b) } else { (b, a) };
+    }
     if lang == "Makefile" {
         let d1 = dirs[t.below(dirs.len())];
         let mut d2 = dirs[t.below(dirs.len())];
